@@ -748,6 +748,50 @@ fn f_c07_id_alloc() {
     forget_ep(ep);
 }
 h!(c07_id_alloc, 8, f_c07_id_alloc());
+
+/// Simultaneous open with a colliding id: while this endpoint allocates an id for its own
+/// request, the connection task (another thread in reality) processes the peer's Connect for
+/// exactly that id.  The peer's frame is injected at the k-th place where `insert_new_flow`
+/// logs - but only if the flow table is not locked at that moment (a real thread would block
+/// on the lock).  Afterwards the id this endpoint proposes must not be one the peer's Connect
+/// has just established.
+fn act_peer_connect(task: *const TTask, id: u32) {
+    let t = unsafe { &*task };
+    if t.flows.is_locked() {
+        return;
+    }
+    let r = now_or_never(t.con_recv_new_stream(id, Bytes::new(), 1, 5));
+    core::mem::forget(r);
+}
+fn f_c07_alloc_race(when: usize) {
+    let mut ep = endpoint(small_options(), KRng::fixed([ID_C, ID_C + 1, 3, 4]));
+    *SCHED_TARGET.lock().unwrap() = Some(SchedTarget { data: core::ptr::null(), kind: 2, n: ID_C, task: &ep.task as *const TTask, task_fn: Some(act_peer_connect) });
+    SCHED_FIRE_AT.store(when, Ordering::Relaxed);
+    tracing::sched::set_hook(verif_sched_point);
+    tracing::sched::arm();
+    let (tx, rx) = oneshot::channel();
+    let id = ep.mux.insert_new_flow(FlowSlot::Requested(tx));
+    tracing::sched::disarm();
+    let accepted = ep.mux.con_recv_stream_rx.lock().try_recv();
+    match &accepted {
+        Ok(s) => {
+            vassert!(s.flow_id != id, "P:C07 this endpoint proposed a flow id that the peer's simultaneous Connect had just established (and overwrote that flow)");
+            let peer = snap(&ep, s.flow_id, Some(s));
+            vassert!(peer.present && peer.kind == 1, "P:C07 a flow accepted from the peer was destroyed by a concurrent local request");
+            kani::cover!(true, "?the peer's Connect was processed during the allocation");
+        }
+        Err(_) => {}
+    }
+    let mine = snap(&ep, id, None);
+    vassert!(id != 0 && mine.present && mine.kind == 0, "P:C07 no pending-request slot under the proposed id");
+    kani::cover!(true, "race evaluated");
+    *SCHED_TARGET.lock().unwrap() = None;
+    core::mem::forget((rx, accepted));
+    forget_ep(ep);
+}
+h!(c07_alloc_race_w0, 8, f_c07_alloc_race(0));
+h!(c07_alloc_race_w1, 8, f_c07_alloc_race(1));
+h!(c07_alloc_race_w2, 8, f_c07_alloc_race(2));
 h!(c07_request_acked, 8, f_c07_request(0));
 h!(c07_request_rejected_r1, 8, f_c07_request(1));
 h!(c07_request_rejected_r2, 8, f_c07_request(2));
@@ -1224,3 +1268,153 @@ fn f_c16_answered_within_t(i_s: u64, t_s: u64, pings: usize) {
 h!(c16_answered_within_t_i2_t3_p2, 8, f_c16_answered_within_t(2, 3, 2));
 h!(c16_answered_within_t_i2_t3_p3, 10, f_c16_answered_within_t(2, 3, 3));
 h!(c16_answered_within_t_i3_t3_p2, 8, f_c16_answered_within_t(3, 3, 2));
+
+// =======================================================================================
+// C08: when the connection ends, everything resolves; a local drop still flushes
+// =======================================================================================
+/// `wind_down` from a table with one flow of every kind and one frame still on the wire.
+/// `drain`: the multiplexor handle was dropped (outbound queue must be flushed in order).
+/// The transport then behaves as the solver chooses: sink ready / failing, source ending
+/// (None) or failing.
+fn f_c08_wind_down(drain: bool, may_have_late_frame: bool) {
+    use tokio::io::{AsyncBufRead, AsyncWrite};
+    let mut ep = endpoint(small_options(), KRng::fixed([1, 2, 3, 4]));
+    // one established flow with data already delivered, one pending open, one pending bind
+    let mut st = install_established(&ep, ID_A, kani::any());
+    let d: [u8; 1] = kani::any();
+    vassert!(queue_inbound(&ep, ID_A, &d), "P:C02 dispatch failed");
+    let mut open_rx = install_requested(&ep, ID_B);
+    let mut bind_rx = install_bind_requested(&ep, ID_C);
+    // frames queued before the end
+    let p1 = leak2(kani::any());
+    let p2 = leak2(kani::any());
+    ep.task.tx_msg_tx.send(Message::Binary(Bytes::from_static(&p1[..]))).ok();
+    ep.task.tx_msg_tx.send(Message::Binary(Bytes::from_static(&p2[..]))).ok();
+    // one more Push for the established flow is still in the source
+    let late = leak2(kani::any());
+    let late_frame: bool = if may_have_late_frame { kani::any() } else { false };
+    {
+        let mut ws = ep.task.ws.lock();
+        if late_frame {
+            ws.push_in(Frame::new_push_owned(ID_A, Bytes::from_static(&late[..])).into());
+        }
+        ws.at_end = if kani::any() { Step::Ok } else { Step::Err };
+        ws.ready = if kani::any() { Step::Ok } else { Step::Err };
+        ws.close = if kani::any() { Step::Ok } else { Step::Err };
+    }
+    let sink_ok = ep.task.ws.lock().ready == Step::Ok;
+    let Endpoint { mux, task, tx_msg_rx, dropped_flows_rx } = ep;
+    let r = now_or_never(task.wind_down(drain, tx_msg_rx, dropped_flows_rx));
+    vassert!(r.is_some(), "P:C08 wind-down blocks although the transport ended");
+    // -- what reached the peer -----------------------------------------------------------
+    {
+        let ws = task.ws.lock();
+        vassert!(ws.closed, "P:C08 the WebSocket was not closed at the end of the connection");
+        if drain && sink_ok {
+            vassert!(ws.sent_len == 2, "P:C08 frames queued before the multiplexor was dropped were not all transmitted");
+            match (&ws.sent[0], &ws.sent[1]) {
+                (Some(Message::Binary(a)), Some(Message::Binary(b))) => {
+                    vassert!(a[0] == p1[0] && a[1] == p1[1] && b[0] == p2[0] && b[1] == p2[1], "P:C08 queued frames were transmitted out of order or modified");
+                }
+                _ => vfail!("P:C08 queued frames were replaced by something else"),
+            }
+        }
+        if !drain {
+            vassert!(ws.sent_len == 0, "P:C08 frames were transmitted after the peer ended the connection");
+        }
+    }
+    // -- every pending and later operation resolves -----------------------------------------
+    vassert!(task.flows.read().len() == 0, "P:C08 flows survive the end of the connection");
+    let w = counting_waker();
+    let mut cx = Context::from_waker(&w);
+    // reads: delivered data (including what was still in the source), then end-of-stream
+    match Pin::new(&mut st).poll_fill_buf(&mut cx) {
+        Poll::Ready(Ok(b)) => vassert!(b.len() == 1 && b[0] == d[0], "P:C08 data delivered before the end is not readable afterwards"),
+        _ => vfail!("P:C08 read after the end of the connection failed or blocked"),
+    }
+    Pin::new(&mut st).consume(1);
+    if late_frame {
+        match Pin::new(&mut st).poll_fill_buf(&mut cx) {
+            Poll::Ready(Ok(b)) => vassert!(b.len() == 2 && b[0] == late[0] && b[1] == late[1], "P:C08 a frame that was still in flight when the connection ended was lost or corrupted"),
+            _ => vfail!("P:C08 read after the end of the connection failed or blocked"),
+        }
+        Pin::new(&mut st).consume(2);
+    }
+    match Pin::new(&mut st).poll_fill_buf(&mut cx) {
+        Poll::Ready(Ok(b)) => vassert!(b.is_empty(), "P:C08 no end-of-stream after the end of the connection"),
+        _ => vfail!("P:C08 read blocks after the end of the connection"),
+    }
+    let x: [u8; 1] = kani::any();
+    match Pin::new(&mut st).poll_write(&mut cx, &x) {
+        Poll::Ready(Err(e)) => vassert!(e.kind() == std::io::ErrorKind::BrokenPipe, "P:C08 write after the end failed with something other than BrokenPipe"),
+        _ => vfail!("P:C08 write after the end of the connection did not fail"),
+    }
+    match open_rx.try_recv() {
+        Ok(None) => {}
+        _ => vfail!("P:C08 a pending stream request was not resolved at the end of the connection"),
+    }
+    match bind_rx.try_recv() {
+        Ok(false) => {}
+        _ => vfail!("P:C08 a pending bind request was not answered negatively at the end of the connection"),
+    }
+    // the task object goes away when its future completes: API calls then report Closed
+    core::mem::drop(task);
+    match now_or_never(mux.accept_stream_channel()) {
+        Some(Err(Error::Closed)) => {}
+        _ => vfail!("P:C08 accept did not report Closed after the connection ended"),
+    }
+    match now_or_never(mux.get_datagram()) {
+        Some(Err(Error::Closed)) => {}
+        _ => vfail!("P:C08 get_datagram did not report Closed after the connection ended"),
+    }
+    match now_or_never(mux.new_stream_channel(b"h", 1)) {
+        Some(Err(Error::Closed)) => {}
+        _ => vfail!("P:C08 a later stream request did not report Closed"),
+    }
+    match now_or_never(mux.send_datagram(Datagram { flow_id: 1, target_host: Bytes::new(), target_port: 1, data: Bytes::new() })) {
+        Some(Err(Error::Closed)) => {}
+        _ => vfail!("P:C08 a later send_datagram did not report Closed"),
+    }
+    kani::cover!(late_frame, "?a frame was still in flight");
+    kani::cover!(true, "wind-down evaluated");
+    core::mem::forget((st, open_rx, bind_rx, mux, r));
+}
+h!(c08_wind_down_peer_ended, 8, f_c08_wind_down(false, false));
+h!(c08_wind_down_local_drop, 8, f_c08_wind_down(true, false));
+h!(c08_wind_down_peer_ended_inflight, 8, f_c08_wind_down(false, true));
+h!(c08_wind_down_local_drop_inflight, 8, f_c08_wind_down(true, true));
+
+/// Keepalive expires on a transport that stays silent (never yields a message, never ends):
+/// the connection task must complete with KeepaliveTimeout instead of waiting for the peer.
+fn f_c08_keepalive_on_silent_transport() {
+    let ep = endpoint(ka_options(1, 1), KRng::fixed([1, 2, 3, 4]));
+    let mut open_rx = install_requested(&ep, ID_B);
+    let Endpoint { mux, task, tx_msg_rx, dropped_flows_rx } = ep;
+    // the transport: sink always ready, source silent forever (ScriptWs default at_end = Pending)
+    let fut = task.start(dropped_flows_rx, tx_msg_rx);
+    let mut fut = core::mem::ManuallyDrop::new(fut);
+    let mut k = 0;
+    let mut done = false;
+    while k < 4 && !done {
+        match poll_once(unsafe { Pin::new_unchecked(&mut *fut) }) {
+            Poll::Ready(r) => {
+                vassert!(matches!(r, Err(Error::KeepaliveTimeout)), "P:C16 the connection ended with something other than KeepaliveTimeout");
+                vassert!(vclock::now_ms() >= 2000, "P:C16 keepalive timeout before T elapsed");
+                done = true;
+                core::mem::forget(r);
+            }
+            Poll::Pending => {
+                vclock::advance_to(vclock::now_ms() + 1000);
+            }
+        }
+        k += 1;
+    }
+    vassert!(done, "P:C08 after the keepalive expired the connection task keeps waiting for the silent peer: pending calls never fail");
+    match open_rx.try_recv() {
+        Ok(None) => {}
+        _ => vfail!("P:C08 a pending stream request was not resolved after the keepalive timeout"),
+    }
+    kani::cover!(true, "silent transport evaluated");
+    core::mem::forget((mux, open_rx));
+}
+h!(c08_keepalive_silent_transport, 8, f_c08_keepalive_on_silent_transport());
